@@ -96,7 +96,7 @@ func TestVerifC02Pass(t *testing.T) {
 			if kind == 0 {
 				evs = append(evs, w.Apply(&discoveryV1.EndpointSlice{ObjectMeta: metav1.ObjectMeta{Namespace: "default", Name: name + "-x1", Labels: map[string]string{"kubernetes.io/service-name": name}},
 					AddressType: discoveryV1.AddressTypeIPv4, Ports: []discoveryV1.EndpointPort{{Name: helpers.GetPointer("tls"), Port: helpers.GetPointer[int32](8443), Protocol: &tcp}},
-					Endpoints:   []discoveryV1.Endpoint{{Addresses: []string{"10.2.0." + strconv.Itoa(k+1)}, Conditions: discoveryV1.EndpointConditions{Ready: helpers.GetPointer(true)}}}}))
+					Endpoints: []discoveryV1.Endpoint{{Addresses: []string{"10.2.0." + strconv.Itoa(k+1)}, Conditions: discoveryV1.EndpointConditions{Ready: helpers.GetPointer(true)}}}}))
 			}
 		}
 		type rt struct {
